@@ -39,6 +39,8 @@ def episodes(prop, seed, n, full, outputs, n_inst, budget=70):
             if rng.random() < 0.3:
                 v = jsgen.mutate(rng, v)
             insts.append({"text": jsgen.dumps(v)})
+        for t in corpus.EXTRA_INSTANCES.get(name, []):
+            insts.append({"text": t})
         g = {"kind": "json", "schema": schema}
         eps.append({"gid": name, "schema_text": text, "pats": pats, "vocab": vocab_choice(rng), "outputs": outputs,
                     "budget": budget, "seed": rng.randrange(1 << 30), "instances": insts,
